@@ -88,6 +88,25 @@ def fvop : P String := do
   let v := v.failIf (xs.length != gets.length) s!"{comp} not_pointwise missing_values"
   return v.render
 
+/-- `fvcz sp fv rhsFV | implFV gets` : minusEqual(space, fv, rhs, clearZero = true) (rhs a FactoredVector; one basis = the basis overload).
+    With clearZero the result may drop a basis whose entries are all within 1e-6 of zero, so the difference is required
+    up to `|rhs| · equalToleranceSmall`; on the dyadic inputs generated a dropped basis is exactly zero. -/
+def fvcz : P String := do
+  let sp ← P.nats; let f ← fv; let r ← fv; P.bar
+  let ifv ← fv; let gets ← P.qs; P.eof
+  let m := fvMinusEqualFVCZ AITB.Gen.C14.minusEqualSubtracts true sp f r
+  let comp := if r.length == 1 then "minusEqual(FactoredVector,BasisFunction)" else "minusEqual(FactoredVector,FactoredVector)"
+  let v : Verdict := { tag := "fvcz" }
+  let v := v.diffIf (m != ifv) s!"{comp} clearZero bases model≠impl"
+  let xs := allX sp
+  let v := v.diffIf (xs.map (fvGet sp ifv) != gets) s!"{comp} getValue model-on-impl-structure≠impl"
+  let tol := (r.length : Rat) * AITB.Gen.equalToleranceSmall
+  let v := match firstBad (xs.zip gets) (fun xg => decide (absQ (xg.2 - (fvGet sp f xg.1 - fvGet sp r xg.1)) ≤ tol)) with
+    | some xg => v.failIf true s!"{comp} not_pointwise at={xg.1} got={ratStr xg.2} want={ratStr (fvGet sp f xg.1 - fvGet sp r xg.1)} clearZero"
+    | none => v
+  let v := v.failIf (xs.length != gets.length) s!"{comp} not_pointwise missing_values"
+  return v.render
+
 /-- `fvfv <plus|minus> sp fv rhs | implFV gets` -/
 def fvfv : P String := do
   let name ← P.tok; let sp ← P.nats; let f ← fv; let r ← fv; P.bar
@@ -284,6 +303,7 @@ def handle (toks : List String) : Option String :=
   | "subset" :: rest => P.run subset rest
   | "fvop" :: rest => P.run fvop rest
   | "fvfv" :: rest => P.run fvfv rest
+  | "fvcz" :: rest => P.run fvcz rest
   | "fvscale" :: rest => P.run fvscale rest
   | "fvscalew" :: rest => P.run fvscalew rest
   | "fmop" :: rest => P.run fmop rest
